@@ -766,7 +766,7 @@ static int32_t bufr_single_get_significand ( float fvalue, int32_t *exponent, in
          }
       else
          ival = ival << 1;
-      if ((ni0 > 0)||(nb > 0)) rem -= 1;
+      if ((ni0 > 0)||(nb > 0)||(expon == -126)) rem -= 1;
       }
    if (nb > 0)
       {
@@ -842,7 +842,7 @@ static int64_t bufr_double_get_significand ( double fvalue, int64_t *exponent, i
          }
       else
          ival = ival << 1;
-      if ((ni0 > 0)||(nb > 0)) rem -= 1;
+      if ((ni0 > 0)||(nb > 0)||(expon == -1022)) rem -= 1;
       }
    if (nb > 0)
       {
